@@ -517,6 +517,14 @@ func RunAllowedCallees(c *Ctx, rule string, funcs, allowed []string, why string)
 					nm = "dynamic:" + t.A[0].String()
 				}
 				good := ok[nm]
+				if !good {
+					// builtins that only measure (len, cap) compute nothing a matching rule could be smuggled through
+					if id, isID := unparen(call.Fun).(*ast.Ident); isID {
+						if _, isB := info.Uses[id].(*types.Builtin); isB && (id.Name == "len" || id.Name == "cap") {
+							good = true
+						}
+					}
+				}
 				if !good && depth < 4 {
 					if fn, _ := typeutil.Callee(info, call).(*types.Func); fn != nil {
 						if h := c.helpers()[fn.Origin()]; h != nil {
